@@ -83,6 +83,7 @@ class Speaker(metaclass=ABCMeta):
             Return
         """
 
+        sample = end
         step = (end.date - begin.date) / 2
 
         while abs(step) >= self._eps_bisect:
@@ -94,6 +95,10 @@ class Speaker(metaclass=ABCMeta):
                 end = orb
             step = (end.date - begin.date) / 2
         else:
+            if end is sample:
+                # The crossing occurs less than a bisection step before the sample:
+                # the event is a distinct point, the sample itself is not to be tagged
+                end = end.copy()
             end.event = listener.info(end)
             return end
 
